@@ -1239,6 +1239,28 @@ def rule_strings(rep, idx):
                     '; '.join(problems) if problems else '%d word(s)' % len(words))
 
 
+def rule_literal_values(rep, idx):
+    rep.rule('R19', 'numeric literals denote their value: the xcmp lexer delivers NUMBER with the decimal value of a digit string and the '
+             'hexadecimal value of #<hex digits> in either letter case (engine I runs the real lexer on each literal; the C library '
+             'conversion is evaluated on the string the lexer collected)', floor=10)
+    from .. import robust
+    toks = idx.enum('xcmp::Token')
+    want = {'0': 0, '7': 7, '42': 42, '65535': 65535, '2147483647': 2147483647, '#0': 0, '#7F': 127, '#7f': 127, '#4A': 0x4A, '#4a': 0x4a,
+            '#ff': 255, '#FFFF': 0xFFFF, '#aB': 0xAB, '#10': 16}
+    where = pos(idx.func('xcmp::Lexer::readToken').node) + ' xcmp::Lexer::readToken'
+    for text, r in robust.lexer_literal_values(idx, 'xcmp', sorted(want)).items():
+        if r[0] == 'undecided':
+            rep.undecided('R19', 'literal %s' % text, r[1], where)
+            continue
+        if r[0] == 'throws':
+            rep.add('R19', 'literal %s' % text, False, where, 'the literal is rejected: %s' % r[1])
+            continue
+        tk, v, ub = r
+        ok = tk == toks['NUMBER'] and v == want[text] and not ub
+        rep.add('R19', 'literal %s' % text, ok, where, 'value %r' % v if ok else 'the lexer delivers token %r with value %r, the literal denotes %d%s' % (
+            tk, v, want[text], '; UB %s' % ub if ub else ''), nontrivial=False)
+
+
 def rule_string_storage(rep, idx):
     """Each occurrence of a string literal is its own array (X strings are arrays the program may store into through an array
     parameter): two literals with the same text must not share storage."""
@@ -1281,6 +1303,7 @@ def run(rep, tier):
     rule_frames(rep, idx)
     rule_strings(rep, idx)
     rule_string_storage(rep, idx)
+    rule_literal_values(rep, idx)
     rule_templates(rep, idx)
     rule_call_registers(rep, idx)
     rule_variable_slots(rep, idx)
